@@ -9,6 +9,7 @@
   Mode 0 with supplied bytes is NOT covered here: see Z80.Props.C06IM0 (known findings KF-1/KF-2/KF-3).
 -/
 import Z80.Proofs.Interrupt
+import Z80.Proofs.IM0
 import Z80.Proofs.Frame
 import Z80.Proofs.StepOf
 import Z80.Proofs.Families.Ctrl
@@ -85,6 +86,19 @@ theorem C06_im2 (s : St) (i : Interrupt) (hi : s.Interrupt = some i) (hn : i.Typ
   have h1 : s.SP + 65535#16 ≠ s.SP + 65534#16 := by bv_omega
   have h2 : s.SP + 65534#16 ≠ s.SP + 65535#16 := by bv_omega
   simp [Spec.step, intStep, isNMI, push16, wr16, wr8, rd16, rd8, Impl.koron, hi, hn, hf, him, hd, z80helper, upd, h1, h2]
+
+
+-- mode 0 with a supplied RST ------------------------------------------------------------
+
+/-- mode 0, the device supplies RST p (the form every MSX/ZX-style system uses): for EVERY state the regenerated
+    Step equals the RECORDED description of this implementation (`Spec.stepKF`): the instruction is executed as if
+    stored at PC, so the pushed return address is PC+1 (known finding KF-1, pinned by TestInterruptIM0) and a
+    pushed byte landing on PC is dropped (KF-2); both flip-flops are cleared and the request is consumed.
+    So the deviation from the Z80 in this mode is exactly the recorded one — nothing else — for all states. -/
+theorem C06_im0_rst (s : St) (i : Interrupt) (hi : s.Interrupt = some i) (hm : s.Memory = .user) (hn : i.Type_ ≠ 0)
+    (hf : s.IFF1 = true) (him : s.IM = 0) (b : U8)
+    (hb : b = 0xc7#8 ∨ b = 0xcf#8 ∨ b = 0xd7#8 ∨ b = 0xdf#8 ∨ b = 0xe7#8 ∨ b = 0xef#8 ∨ b = 0xf7#8 ∨ b = 0xff#8)
+    (hd : i.Data = [b]) : Gen.Step s = Spec.stepKF Impl.koron s := im0_rst s i hi hm hn hf him b hb hd
 
 -- EI, DI, RETN, RETI -----------------------------------------------------------------
 
